@@ -4,7 +4,7 @@
 From stdpp Require Import gmap.
 From Coq Require Import ZArith Lia.
 From V Require Import Base.Res Base.ResLemmas Sched.LedgerModel Sched.StmtModel Sched.GangModel Sched.LedgerInvP
-                      Sched.CycleModel Sched.NodeCapLemmas Sched.NodeCapLemmasCycle C02.BindModel.
+                      Sched.CycleModel Sched.NodeCapLemmas Sched.NodeCapLemmasCycle Sched.NodeSumLemmas C02.BindModel.
 Open Scope Z_scope.
 
 Section Bind.
@@ -29,11 +29,25 @@ Proof.
   destruct (negb _); [apply ne_reject; [discriminate|reflexivity]|].
   destruct (c_heap c !! b_task r) as [t|] eqn:Et; [|apply ne_reject; [discriminate|reflexivity]].
   destruct (c_nodes c !! b_node r) as [n|] eqn:En; [|apply ne_reject; [discriminate|reflexivity]].
+  destruct (n_has_node n) eqn:Hhas; simpl negb; cbv iota; [|apply ne_reject; [discriminate|reflexivity]].
   unfold job_update. cbv beta zeta iota.
   destruct (b_decision_fails r); [apply ne_reject; [discriminate|reflexivity]|].
   destruct (node_add eps n (set_status t Binding)) as [[n' t2]|e] eqn:Ea.
   - simpl. eapply ne_accept; eauto.
   - apply ne_reject; [discriminate|reflexivity].
+Qed.
+
+(* after fix 8dab8c3: a target without Node object (the placeholder of a removed node, or of pods seen
+   before their node) is refused and nothing is touched *)
+Theorem bind_needs_node_object c r n :
+  c_nodes c !! b_node r = Some n -> n_has_node n = false ->
+  fst (add_bind_task eps c r) = c /\ snd (add_bind_task eps c r) <> BOk.
+Proof.
+  intros Hn Hh. unfold add_bind_task.
+  destruct (c_jobs c !! b_job r) as [j|]; [|split; [reflexivity|discriminate]].
+  destruct (negb _); [split; [reflexivity|discriminate]|].
+  destruct (c_heap c !! b_task r) as [t|]; [|split; [reflexivity|discriminate]].
+  rewrite Hn, Hh. simpl. split; [reflexivity|discriminate].
 Qed.
 
 (* an accepted call passed the Idle re-check of NodeInfo.AddTask (on a node that has a Node) *)
@@ -108,6 +122,7 @@ Proof.
   generalize (take k l). clear l k. intros l. revert ns. induction l as [|[t nid] l IH]; intros ns Hall; [exact Hall|].
   simpl. apply IH. unfold agent_add_bind_task. simpl.
   destruct (ns !! nid) as [n|] eqn:En; [|exact Hall].
+  destruct (n_has_node n); simpl; [|exact Hall].
   destruct (node_add eps n (set_status t Binding)) as [[n' t']|e] eqn:Ea; [|exact Hall].
   simpl. apply nodes_all_insert; [exact Hall|].
   apply (node_add_binding_keeps_idle eps eps_pos n (set_status t Binding) n' t'); [apply (Hall _ _ En)|reflexivity|exact Ea].
@@ -214,6 +229,7 @@ Proof.
   apply bool_decide_eq_true in Ein.
   destruct (c_heap c !! b_task r) as [t|] eqn:Et; [|intros _; simpl; auto].
   destruct (c_nodes c !! b_node r) as [n|] eqn:En; [|intros _; simpl; auto].
+  destruct (n_has_node n) eqn:Hhas; simpl negb; cbv iota; [|intros _; simpl; auto].
   pose proof (Hk _ _ Et) as Hid.
   assert (Hheap : <[b_task r := set_status (set_status t Binding) (t_status t)]> (<[b_task r := set_status t Binding]> (c_heap c)) = c_heap c).
   { rewrite insert_insert, set_status_roundtrip. apply insert_id. exact Et. }
@@ -241,25 +257,52 @@ Hypothesis eps_pos : 0 < eps.
 Lemma fold_set_acc_idle l : forall n,
   sc (n_idle n) <> None ->
   let n' := fold_left node_set_acc l n in
-  sc (n_idle n') <> None /\ n_tasks n' = n_tasks n /\ n_has_node n' = n_has_node n /\
-  forall d, amt (n_idle n') d = amt (n_idle n) d - sum_amt (used_amt d) l.
+  sc (n_idle n') <> None /\ n_tasks n' = n_tasks n /\ n_has_node n' = n_has_node n /\ n_alloc n' = n_alloc n /\
+  forall d, amt (n_idle n') d = amt (n_idle n) d - sum_amt (used_amt d) l /\
+            amt (n_releasing n') d = amt (n_releasing n) d + sum_amt (rel_amt d) l /\
+            amt (n_pipelined n') d = amt (n_pipelined n) d + sum_amt (pip_amt d) l.
 Proof.
-  induction l as [|t l IH]; intros n Hs; simpl; [repeat split; auto; intros d; lia|].
+  induction l as [|t l IH]; intros n Hs; simpl; [repeat split; auto; lia|].
   assert (H1 : sc (n_idle (node_set_acc n t)) <> None /\ n_tasks (node_set_acc n t) = n_tasks n /\
-               n_has_node (node_set_acc n t) = n_has_node n /\
-               forall d, amt (n_idle (node_set_acc n t)) d = amt (n_idle n) d - used_amt d t).
-  { unfold node_set_acc, used_amt. destruct (t_status t); simpl; repeat split; auto; try (apply sc_sub_some; exact Hs);
-      intros d; try (rewrite amt_sub_exact by exact Hs); try rewrite bool_decide_eq_false_2 by discriminate;
-      try rewrite bool_decide_eq_true_2 by reflexivity; lia. }
-  destruct H1 as (A1 & A2 & A3 & A4). destruct (IH (node_set_acc n t) A1) as (B1 & B2 & B3 & B4).
-  repeat split; [exact B1|rewrite B2; exact A2|rewrite B3; exact A3|]. intros d. rewrite (B4 d), (A4 d). lia.
+               n_has_node (node_set_acc n t) = n_has_node n /\ n_alloc (node_set_acc n t) = n_alloc n /\
+               forall d, amt (n_idle (node_set_acc n t)) d = amt (n_idle n) d - used_amt d t /\
+                         amt (n_releasing (node_set_acc n t)) d = amt (n_releasing n) d + rel_amt d t /\
+                         amt (n_pipelined (node_set_acc n t)) d = amt (n_pipelined n) d + pip_amt d t).
+  { unfold node_set_acc, used_amt, rel_amt, pip_amt. destruct (t_status t); simpl; repeat split; auto; try (apply sc_sub_some; exact Hs);
+      try (rewrite amt_sub_exact by exact Hs); try rewrite amt_add; lia. }
+  destruct H1 as (A1 & A2 & A3 & A4 & A5). destruct (IH (node_set_acc n t) A1) as (B1 & B2 & B3 & B4 & B5).
+  repeat split; [exact B1|rewrite B2; exact A2|rewrite B3; exact A3|rewrite B4; exact A4| | |];
+    destruct (B5 d) as (X1 & X2 & X3); destruct (A5 d) as (Y1 & Y2 & Y3); lia.
 Qed.
 
 Theorem node_set_idle n alloc :
   sc alloc <> None ->
   sc (n_idle (node_set n alloc)) <> None /\ n_tasks (node_set n alloc) = n_tasks n /\ n_has_node (node_set n alloc) = true /\
   forall d, amt (n_idle (node_set n alloc)) d = amt alloc d - sum_amt (used_amt d) (copies n).
-Proof. intros Hs. unfold node_set, copies. apply (fold_set_acc_idle _ (mkNode (n_id n) true alloc empty_res empty_res empty_res alloc (n_tasks n))). exact Hs. Qed.
+Proof.
+  intros Hs. unfold node_set, copies.
+  destruct (fold_set_acc_idle (map snd (map_to_list (n_tasks n))) (mkNode (n_id n) true alloc empty_res empty_res empty_res alloc (n_tasks n)) Hs)
+    as (H1 & H2 & H3 & _ & H5).
+  repeat split; [exact H1|exact H2|exact H3|]. intros d. apply (H5 d).
+Qed.
+
+Lemma amt_empty_res d : amt empty_res d = 0.
+Proof. destruct d; reflexivity. Qed.
+
+(* ... and the whole ledger: after SetNode the node accounts for exactly the copies it holds *)
+Theorem node_set_acct n alloc :
+  sc alloc <> None -> (forall k c, n_tasks n !! k = Some c -> nonneg (t_req c)) ->
+  node_acct (node_set n alloc) /\ n_alloc (node_set n alloc) = alloc.
+Proof.
+  intros Hs Hnn. unfold node_set.
+  destruct (fold_set_acc_idle (map snd (map_to_list (n_tasks n))) (mkNode (n_id n) true alloc empty_res empty_res empty_res alloc (n_tasks n)) Hs)
+    as (H1 & H2 & H3 & H4 & H5).
+  split; [|exact H4]. split; [intros _; exact H1|]. split; [rewrite H2; exact Hnn|].
+  intros _ d. rewrite H2, H4. simpl. destruct (H5 d) as (X1 & X2 & X3). simpl n_idle in X1. simpl n_releasing in X2. simpl n_pipelined in X3.
+  unfold csum. repeat split; [exact X1| |].
+  - rewrite X2, amt_empty_res. lia.
+  - rewrite X3, amt_empty_res. lia.
+Qed.
 
 (* a node update that does not change the allocatable leaves Idle as it was, provided the ledger
    identity held (node_inv: idle + used = allocatable, used = sum over the held copies) *)
@@ -273,7 +316,8 @@ Proof. intros Hs Hinv d. destruct (node_set_idle n (n_alloc n) Hs) as (_ & _ & _
    copies with non-negative requests none of which is Pipelined (the cache never pipelines) *)
 Definition bnode_ok (n : node) : Prop :=
   (n_has_node n = true -> idle_ok eps n) /\
-  (forall j c, n_tasks n !! j = Some c -> nonneg (t_req c) /\ t_status c <> Pipelined).
+  (forall j c, n_tasks n !! j = Some c -> nonneg (t_req c) /\ t_status c <> Pipelined) /\
+  node_acct n.
 
 Definition cinv (c : cache) : Prop :=
   (forall i t, c_heap c !! i = Some t -> nonneg (t_req t) /\ t_status t <> Pipelined) /\
@@ -295,10 +339,11 @@ Qed.
 
 Lemma bnode_remove n tid : bnode_ok n -> bnode_ok (node_remove n tid).
 Proof.
-  intros [Hi Hc]. split.
+  intros (Hi & Hc & Hacct). split; [|split].
   - rewrite node_remove_has. intros Hh. apply node_remove_keeps_idle; [apply Hi; exact Hh|].
     intros c Hl. apply (Hc _ _ Hl).
   - intros j c. rewrite node_remove_tasks. intros Hl. apply lookup_delete_Some in Hl as [_ Hl]. apply (Hc _ _ Hl).
+  - apply node_remove_acct. exact Hacct.
 Qed.
 
 (* AddTask of a non-pipelined task whose request fits what is idle (or is re-checked: Binding) *)
@@ -307,7 +352,7 @@ Lemma bnode_add n t n' t' :
   (t_status t = Binding \/ (n_has_node n = true -> fits eps (t_req t) (amt (n_idle n)))) ->
   node_add eps n t = inl (n', t') -> bnode_ok n'.
 Proof.
-  intros [Hi Hc] Hnn Hnp Hg Ha. split.
+  intros (Hi & Hc & Hacct) Hnn Hnp Hg Ha. split; [|split; [|eapply node_add_acct; eauto]].
   - rewrite (node_add_has _ _ _ _ Ha). intros Hh. specialize (Hi Hh).
     destruct Hg as [Hb|Hf]; [eapply node_add_binding_keeps_idle; eauto|]. specialize (Hf Hh).
     destruct Hi as [Hs Hidle]. revert Ha. unfold node_add. repeat case_bool_decide; try discriminate.
@@ -330,7 +375,7 @@ Lemma bnode_reterminate n t cp n' t' :
   bnode_ok n -> n_tasks n !! t_id t = Some cp -> t_req cp = t_req t -> t_status t = Releasing ->
   node_add eps (node_remove n (t_id t)) t = inl (n', t') -> bnode_ok n'.
 Proof.
-  intros Hb Hl Hr Hst Ha. pose proof Hb as [Hi Hc]. destruct (Hc _ _ Hl) as [Hnn Hnp]. rewrite Hr in Hnn.
+  intros Hb Hl Hr Hst Ha. pose proof Hb as (Hi & Hc & _). destruct (Hc _ _ Hl) as [Hnn Hnp]. rewrite Hr in Hnn.
   apply (bnode_add (node_remove n (t_id t)) t n' t'); [apply bnode_remove; exact Hb|exact Hnn|rewrite Hst; discriminate| |exact Ha].
   right. rewrite node_remove_has. intros Hh. destruct (Hi Hh) as [Hs Hidle].
   assert (Hidle1 : forall d, amt (n_idle (node_remove n (t_id t))) d = amt (n_idle n) d + amt (t_req t) d).
@@ -343,9 +388,21 @@ Qed.
 Definition ev_ok (c : cache) (e : cache_ev) : Prop :=
   match e with
   | EvNode nid alloc =>
+    (* The delivered object carries a scalar map (NewResource: at least "pods") and, for a node
+       the cache already accounts for (it has its Node object), EITHER its allocatable did not
+       shrink in any dimension -- then nothing else is asked: the new Idle is the old one plus the
+       growth, by the ledger identity of the invariant -- OR (a shrinking node, and the first Node
+       object of a placeholder) the environment guarantees that the new allocatable still covers
+       what the node holds: the pods bound to it, of which the cache's held set consists apart
+       from binds in flight.  A node shrunk below what is placed on it is an overcommitted cluster
+       state by itself, outside the property's quantifier. *)
     sc alloc <> None /\
-    forall d, guarded_dim d ->
-      sum_amt (used_amt d) (copies (default (placeholder nid) (c_nodes c !! nid))) < amt alloc d + eps
+    match c_nodes c !! nid with
+    | Some n =>
+      (n_has_node n = true /\ forall d, amt (n_alloc n) d <= amt alloc d) \/
+      (forall d, guarded_dim d -> csum (used_amt d) (n_tasks n) < amt alloc d + eps)
+    | None => forall d, guarded_dim d -> - eps < amt alloc d
+    end
   | EvTerminating tid =>
     forall st i, c_heap c !! tid = Some st -> t_node st = Some i ->
       t_id st = tid /\ terminated (t_status st) = false /\
@@ -359,10 +416,14 @@ Definition ev_ok (c : cache) (e : cache_ev) : Prop :=
     forall st i, c_heap c !! tid = Some st -> t_status st = Binding -> t_node st = Some i ->
       t_id st = tid /\
       forall n, c_nodes c !! i = Some n -> exists cp, n_tasks n !! tid = Some cp /\ t_req cp = t_req st
+  | EvRemoveNode _ => True
   end.
 
 Lemma bnode_placeholder i : bnode_ok (placeholder i).
-Proof. split; [simpl; discriminate|]. intros j c Hl. simpl in Hl. rewrite lookup_empty in Hl. discriminate. Qed.
+Proof.
+  split; [simpl; discriminate|]. split; [intros j c Hl; simpl in Hl; rewrite lookup_empty in Hl; discriminate|].
+  split; [simpl; discriminate|]. split; [intros j c Hl; simpl in Hl; rewrite lookup_empty in Hl; discriminate|]. intros Hc. simpl in Hc. discriminate.
+Qed.
 
 Lemma add_to_node_ok ns t :
   nodes_all bnode_ok ns -> nonneg (t_req t) -> t_status t <> Pipelined ->
@@ -399,7 +460,7 @@ Proof.
   rewrite Hnode. intros i n Hi Hl. right. intros Hh.
   unfold remove_from_node in Hl. rewrite Hi in Hl. destruct (ns !! i) as [n0|] eqn:E0; [|rewrite E0 in Hl; discriminate].
   rewrite Hterm, lookup_insert in Hl. inversion Hl; subst n. clear Hl.
-  destruct (Hcp i n0 Hi E0) as (cp & Hlcp & Hrcp). destruct (Hall _ _ E0) as [Hi0 Hc0].
+  destruct (Hcp i n0 Hi E0) as (cp & Hlcp & Hrcp). destruct (Hall _ _ E0) as (Hi0 & Hc0 & _).
   rewrite node_remove_has in Hh. destruct (Hi0 Hh) as [Hs0 Hidle0]. destruct (Hc0 _ _ Hlcp) as [_ Hcpnp].
   assert (Hidle1 : forall d, amt (n_idle (node_remove n0 (t_id st))) d = amt (n_idle n0) d + amt (t_req st) d).
   { intros d. unfold node_remove. rewrite Hlcp, Hh, Hrcp. simpl. destruct (t_status cp); try congruence; simpl; apply amt_add. }
@@ -417,16 +478,25 @@ Proof. intros Hl Ha. simpl. rewrite Hl, Ha. reflexivity. Qed.
 (* every cache event keeps the invariant *)
 Theorem cache_event_keeps c e : cinv c -> ev_ok c e -> cinv (cache_event eps c e).
 Proof.
-  intros [Hheap Hall] Hev. destruct e as [nid alloc|tid|tid|t|tid|tid]; simpl.
+  intros [Hheap Hall] Hev. destruct e as [nid alloc|tid|tid|t|tid|tid|nid]; simpl.
   - (* node add / update: the ledger is recomputed *)
     destruct Hev as [Hs Hsum]. split; [exact Hheap|]. simpl. unfold node_event. apply nodes_all_insert; [exact Hall|].
-    destruct (c_nodes c !! nid) as [n|] eqn:E; simpl in Hsum.
-    + destruct (node_set_idle n alloc Hs) as (S1 & S2 & S3 & S4). split.
-      * intros _. split; [exact S1|]. intros d Hd. rewrite (S4 d). specialize (Hsum d Hd). lia.
-      * intros j cp. rewrite S2. apply (Hall _ _ E).
-    + split; [|intros j cp Hl; simpl in Hl; rewrite lookup_empty in Hl; discriminate].
-      intros _. split; [exact Hs|]. intros d Hd. simpl. specialize (Hsum d Hd).
-      unfold copies in Hsum. simpl in Hsum. rewrite map_to_list_empty in Hsum. simpl in Hsum. lia.
+    destruct (c_nodes c !! nid) as [n|] eqn:E.
+    + destruct (Hall _ _ E) as (Hi0 & Hc0 & Hacct0).
+      assert (Hnn0 : forall k cp, n_tasks n !! k = Some cp -> nonneg (t_req cp)) by (intros k cp Hl; apply (Hc0 _ _ Hl)).
+      destruct (node_set_idle n alloc Hs) as (S1 & S2 & S3 & S4).
+      destruct (node_set_acct n alloc Hs Hnn0) as [Hacct' Halloc'].
+      split; [|split; [intros j cp; rewrite S2; apply Hc0|exact Hacct']].
+      intros _. split; [exact S1|]. intros d Hd. rewrite (S4 d). change (sum_amt (used_amt d) (copies n)) with (csum (used_amt d) (n_tasks n)).
+      destruct Hsum as [[Hh Hgrow]|Hcov]; [|specialize (Hcov d Hd); lia].
+      (* no shrink: derived from the invariant *)
+      destruct (Hi0 Hh) as [_ Hidle]. specialize (Hidle d Hd). destruct Hacct0 as (_ & _ & Hsums). destruct (Hsums Hh d) as (X1 & _ & _).
+      specialize (Hgrow d). lia.
+    + assert (Hfresh : node_acct (fresh_node nid alloc)).
+      { split; [intros _; exact Hs|]. split; [intros k cp Hl; simpl in Hl; rewrite lookup_empty in Hl; discriminate|].
+        intros _ d. simpl. unfold csum. rewrite map_to_list_empty. simpl. rewrite amt_empty_res. repeat split; lia. }
+      split; [|split; [intros j cp Hl; simpl in Hl; rewrite lookup_empty in Hl; discriminate|exact Hfresh]].
+      intros _. split; [exact Hs|]. intros d Hd. simpl. apply (Hsum d Hd).
   - (* pod turned terminating *)
     destruct (c_heap c !! tid) as [st|] eqn:Eh; [|split; assumption]. destruct (Hheap _ _ Eh) as [Hnn Hnp].
     split; simpl.
@@ -436,7 +506,7 @@ Proof.
       destruct (Hev st i Eh Hi) as (Hid & Hterm & Hcp).
       unfold remove_from_node in Hl. rewrite Hi in Hl. destruct (c_nodes c !! i) as [n0|] eqn:E0; [|rewrite E0 in Hl; discriminate].
       rewrite Hterm, lookup_insert in Hl. inversion Hl; subst n. clear Hl.
-      destruct (Hcp n0 eq_refl) as (cp & Hlcp & Hreq). destruct (Hall _ _ E0) as [Hi0 Hc0].
+      destruct (Hcp n0 eq_refl) as (cp & Hlcp & Hreq). destruct (Hall _ _ E0) as (Hi0 & Hc0 & _).
       rewrite node_remove_has in Hh. destruct (Hi0 Hh) as [Hs0 Hidle0]. destruct (Hc0 _ _ Hlcp) as [_ Hcpnp].
       assert (Hidle1 : forall d, amt (n_idle (node_remove n0 (t_id st))) d = amt (n_idle n0) d + amt (t_req st) d).
       { intros d. unfold node_remove. rewrite Hid, Hlcp, Hh, Hreq. simpl. destruct (t_status cp); try congruence; simpl; apply amt_add. }
@@ -464,6 +534,13 @@ Proof.
     + intros k u Hl. apply lookup_insert_Some in Hl as [[_ <-]|[_ Hl]]; [split; [exact Hnn|simpl; discriminate]|apply (Hheap _ _ Hl)].
     + apply readd_ok; [exact Hall|exact Hnn|reflexivity|reflexivity|simpl; discriminate|rewrite Est; reflexivity|].
       intros k n Hk Hl. rewrite En in Hk. inversion Hk; subst k. rewrite Hid. apply (Hcp n Hl).
+  - (* node removed: its pods are parked on a placeholder that keeps no ledger *)
+    destruct (c_nodes c !! nid) as [n|] eqn:E; [|split; assumption]. split; [exact Hheap|]. simpl.
+    case_bool_decide.
+    + intros i m Hl. apply lookup_delete_Some in Hl as [_ Hl]. apply (Hall _ _ Hl).
+    + apply nodes_all_insert; [exact Hall|]. destruct (Hall _ _ E) as (_ & Hc0 & _).
+      split; [simpl; discriminate|]. split; [exact Hc0|]. split; [simpl; discriminate|]. split; [intros k cp Hl; apply (Hc0 _ _ Hl)|].
+      intros Hc. simpl in Hc. discriminate.
 Qed.
 
 (* AddBindTask keeps it too *)
@@ -476,6 +553,7 @@ Proof.
   destruct (negb _); [simpl; eauto|].
   destruct (c_heap c !! b_task r) as [t|] eqn:Et; [|simpl; eauto].
   destruct (c_nodes c !! b_node r) as [n|]; [|simpl; eauto].
+  destruct (n_has_node n); simpl negb; cbv iota; [|simpl; eauto].
   unfold job_update. cbv beta zeta iota.
   assert (Hgen : forall x, t_req x = t_req t -> (t_status x = t_status t \/ t_status x = Binding) ->
             forall y, t_req y = t_req t -> (t_status y = t_status t \/ t_status y = Binding) ->
@@ -518,5 +596,103 @@ Qed.
 Corollary bind_events_idle l c k i n :
   cinv c -> ops_ok c l -> c_nodes (ops_state eps c (take k l)) !! i = Some n -> n_has_node n = true -> idle_ok eps n.
 Proof. intros Hc Hok Hl Hh. destruct (bind_events_safe l c k Hc Hok) as [_ Hall]. apply (Hall _ _ Hl). exact Hh. Qed.
+
+
+(* B in the property's words (audit W1): in every state reached by any history of AddBindTask
+   calls and cache events, on every node that has its Node object, the summed requests of the
+   tasks the node holds (none is Pipelined in the cache) stay below allocatable + eps *)
+Theorem bind_events_sums l c k i n d :
+  cinv c -> ops_ok c l -> c_nodes (ops_state eps c (take k l)) !! i = Some n -> n_has_node n = true -> guarded_dim d ->
+  csum (used_amt d) (n_tasks n) < amt (n_alloc n) d + eps /\
+  csum (used_amt d) (n_tasks n) = csum (req_amt d) (n_tasks n).
+Proof.
+  intros Hc Hok Hl Hh Hd. destruct (bind_events_safe l c k Hc Hok) as [_ Hall]. destruct (Hall _ _ Hl) as (Hi & Hcp & Hacct).
+  split.
+  - destruct (Hi Hh) as [_ Hidle]. specialize (Hidle d Hd). destruct Hacct as (_ & _ & Hsums). destruct (Hsums Hh d) as (X1 & _ & _). lia.
+  - unfold csum. assert (Hall' : Forall (fun cp => t_status cp <> Pipelined) (map snd (map_to_list (n_tasks n)))).
+    { apply Forall_forall. intros cp Hin. apply elem_of_list_fmap in Hin as ([j cp'] & -> & Hin). apply elem_of_map_to_list in Hin. apply (Hcp _ _ Hin). }
+    induction Hall' as [|cp l' Hnp _ IH]; simpl; [reflexivity|]. rewrite IH. unfold used_amt, req_amt. rewrite bool_decide_eq_false_2 by exact Hnp. reflexivity.
+Qed.
+
+(* ---------- the agent scheduler's cache: binds interleaved with the same events (audit W6) ---------- *)
+
+Lemma add_to_node_held ns t i n :
+  t_node t = Some i -> ns !! i = Some n -> is_Some (n_tasks n !! t_id t) -> add_to_node eps ns t = <[i := n]> ns.
+Proof.
+  intros H1 H2 H3. unfold add_to_node. rewrite H1, H2. simpl. destruct (terminated (t_status t)); [reflexivity|].
+  assert (Hrej : exists er, node_add eps n t = inr er).
+  { unfold node_add. case_bool_decide; [eauto|]. rewrite bool_decide_eq_true_2 by exact H3. eauto. }
+  destruct Hrej as [er ->]. reflexivity.
+Qed.
+
+Inductive agent_op := AOpBind (t : task) (nid : positive) | AOpEv (e : cache_ev).
+
+Definition agent_step (tasks : positive -> option task) (ns : gmap positive node) (o : agent_op) : gmap positive node :=
+  match o with
+  | AOpBind t nid => fst (agent_add_bind_task eps ns t nid)
+  | AOpEv e => agent_event eps tasks ns e
+  end.
+
+Definition agent_ev_ok (tasks : positive -> option task) (ns : gmap positive node) (e : cache_ev) : Prop :=
+  match e with
+  | EvNode nid alloc => ev_ok (mkCache ∅ ∅ ns) (EvNode nid alloc)
+  | EvTerminating tid =>
+    forall st i, tasks tid = Some st -> t_node st = Some i ->
+      nonneg (t_req st) /\ terminated (t_status st) = false /\
+      forall n, ns !! i = Some n -> exists cp, n_tasks n !! t_id st = Some cp /\ t_req cp = t_req st
+  | EvDelete _ => True
+  | EvPodAdd t => ev_ok (mkCache ∅ ∅ ns) (EvPodAdd t)
+  | EvUpdateUnbound _ => True
+  | EvBoundArrives tid =>
+    forall st i, tasks tid = Some st -> find_binding ns tid = Some i ->
+      nonneg (t_req st) /\ forall n, ns !! i = Some n -> is_Some (n_tasks n !! t_id st)
+  | EvRemoveNode _ => True
+  end.
+
+Definition agent_op_ok (tasks : positive -> option task) (ns : gmap positive node) (o : agent_op) : Prop :=
+  match o with AOpBind t _ => nonneg (t_req t) | AOpEv e => agent_ev_ok tasks ns e end.
+
+Lemma agent_step_keeps tasks ns o :
+  nodes_all bnode_ok ns -> agent_op_ok tasks ns o -> nodes_all bnode_ok (agent_step tasks ns o).
+Proof.
+  intros Hall Hok. destruct o as [t nid|e]; simpl.
+  - unfold agent_add_bind_task. destruct (ns !! nid) as [n|] eqn:E; [|exact Hall].
+    destruct (n_has_node n); simpl negb; cbv iota; [|exact Hall].
+    destruct (node_add eps n (set_status t Binding)) as [[n' t']|er] eqn:Ea; [|exact Hall]. simpl.
+    apply nodes_all_insert; [exact Hall|].
+    apply (bnode_add n (set_status t Binding) n' t'); [apply (Hall _ _ E)|exact Hok|simpl; discriminate|left; reflexivity|exact Ea].
+  - destruct e as [nid alloc|tid|tid|t|tid|tid|nid]; simpl in *.
+    + assert (Hc : cinv (mkCache ∅ ∅ ns)) by (split; [intros i t Hl; simpl in Hl; rewrite lookup_empty in Hl; discriminate|exact Hall]).
+      destruct (cache_event_keeps _ (EvNode nid alloc) Hc Hok) as [_ H]. exact H.
+    + destruct (tasks tid) as [st|] eqn:Et; [|exact Hall].
+      destruct (t_node st) as [i|] eqn:En.
+      * destruct (Hok st i eq_refl En) as (Hnn & Hterm & Hcp).
+        apply readd_ok; [exact Hall|exact Hnn|reflexivity|reflexivity|simpl; discriminate|exact Hterm|].
+        intros k n Hk Hl. rewrite En in Hk. inversion Hk; subst k. apply (Hcp n Hl).
+      * unfold add_to_node, remove_from_node. simpl. rewrite En. exact Hall.
+    + destruct (tasks tid) as [st|]; [apply remove_from_node_ok; exact Hall|exact Hall].
+    + assert (Hc : cinv (mkCache ∅ ∅ ns)) by (split; [intros i u Hl; simpl in Hl; rewrite lookup_empty in Hl; discriminate|exact Hall]).
+      destruct (cache_event_keeps _ (EvPodAdd t) Hc Hok) as [_ H]. exact H.
+    + exact Hall.
+    + destruct (tasks tid) as [st|] eqn:Et; [|exact Hall]. destruct (find_binding ns tid) as [i|] eqn:Ef; [|exact Hall].
+      destruct (Hok st i eq_refl eq_refl) as [Hnn Hheld].
+      destruct (ns !! i) as [n|] eqn:E.
+      * rewrite (add_to_node_held ns _ i n); [|reflexivity|exact E|apply (Hheld n eq_refl)].
+        apply nodes_all_insert; [exact Hall|apply (Hall _ _ E)].
+      * apply add_to_node_ok; [exact Hall|exact Hnn|simpl; discriminate|].
+        intros k n Hk Hl. simpl in Hk. inversion Hk; subst k. rewrite E in Hl. discriminate.
+    + intros i m Hl. apply lookup_delete_Some in Hl as [_ Hl]. apply (Hall _ _ Hl).
+Qed.
+
+Fixpoint agent_ops_ok (tasks : positive -> option task) (ns : gmap positive node) (l : list agent_op) : Prop :=
+  match l with [] => True | o :: l' => agent_op_ok tasks ns o /\ agent_ops_ok tasks (agent_step tasks ns o) l' end.
+
+Theorem agent_events_safe tasks l : forall ns k,
+  nodes_all bnode_ok ns -> agent_ops_ok tasks ns l ->
+  nodes_all bnode_ok (fold_left (agent_step tasks) (take k l) ns).
+Proof.
+  induction l as [|o l IH]; intros ns k Hall Hok; [rewrite take_nil; exact Hall|].
+  destruct k as [|k]; [exact Hall|]. destruct Hok as [Ho Hok]. simpl. apply IH; [apply agent_step_keeps; assumption|exact Hok].
+Qed.
 
 End Events.
